@@ -425,6 +425,15 @@ func (p *pool) eval(seed uint64, index int, t *Tapes) *Result {
 		p.servers <- ns
 		return &Result{Harness: "server died: " + err.Error()}
 	}
+	if strings.HasSuffix(p.b.bin, "-race.test") {
+		// the detector reports a given race once per process: evaluate every candidate in
+		// a fresh one so that replays see it again
+		s.stop()
+		s = startServer(p.b, false)
+		p.mu.Lock()
+		p.all = append(p.all, s)
+		p.mu.Unlock()
+	}
 	p.servers <- s
 	p.mu.Lock()
 	p.evals++
